@@ -224,9 +224,11 @@ def drive(root, n):
         wv, wr = os.path.join(w, "verif"), os.path.join(w, "repo")
         shutil.rmtree(os.path.join(wv, "build"), ignore_errors=True)
         ct = os.path.join(wv, "replay", "Cargo.toml")
-        open(ct, "w").write(open(ct).read().replace('path = "/repo"', f'path = "{wr}"').replace(f'path = "{repo0}"', f'path = "{wr}"'))
+        txt = open(ct).read().replace('path = "/repo"', f'path = "{wr}"').replace(f'path = "{repo0}"', f'path = "{wr}"')
+        open(ct, "w").write(txt)
         dc = os.path.join(wv, "tools", "dig_cases.py")
-        open(dc, "w").write(open(dc).read().replace('os.path.join("/repo", "tests"', f'os.path.join("{wr}", "tests"'))
+        txt = open(dc).read().replace('os.path.join("/repo", "tests"', f'os.path.join("{wr}", "tests"')
+        open(dc, "w").write(txt)
         env = dict(os.environ, VERIF_REPO=wr, VERIF_NO_CACHE="1", CARGO_NET_OFFLINE="true")
         procs.append(subprocess.Popen([sys.executable, os.path.join(wv, "tools", "mutate.py"), "worker", str(i), str(n)], env=env,
                                       stdout=open(os.path.join(root, f"w{i}.log"), "w"), stderr=subprocess.STDOUT))
